@@ -118,7 +118,17 @@ func (g *Gen) amountLE(max *big.Rat, p int) string {
 		return FmtDec(u, p)
 	}
 	var r *big.Rat
-	switch g.R.Weighted([]float64{3, 2, 3, 4, 2, 1}) {
+	switch g.R.Weighted([]float64{3, 2, 3, 4, 2, 1, 1.5}) {
+	case 6: // one or two significant digits at the magnitude of max: d x 10^k (many trailing zeros when max is large)
+		k := len(RatFloor(max).String()) - 1 - g.R.Range(0, 2)
+		if k < 0 {
+			k = 0
+		}
+		r = RatMul(RatI64(int64(g.R.Range(1, 25))), RatInt(pow10(k)))
+		for r.Cmp(max) > 0 && k > 0 {
+			k--
+			r = RatMul(RatI64(int64(g.R.Range(1, 9))), RatInt(pow10(k)))
+		}
 	case 0:
 		r = new(big.Rat).Set(max) // everything
 	case 1:
@@ -157,6 +167,10 @@ func (g *Gen) issueAmount(p int) string {
 		return FmtDec(unit(p), p)
 	case 4: // very large (wide domain)
 		digits := g.R.Range(20, 40)
+		if g.R.Chance(0.3) {
+			// a round very large number
+			return fmt.Sprint(g.R.Range(1, 99)) + strings.Repeat("0", g.R.Range(13, 36))
+		}
 		s := "9"
 		for i := 1; i < digits; i++ {
 			s += string(rune('0' + g.R.Intn(10)))
